@@ -495,6 +495,9 @@ class Engine:
 
     def check(self, *extra):
         t0 = time.time()
+        if getattr(self, 'deadline', None) is not None and t0 > self.deadline and not getattr(self, 'in_init', False):
+            self.budget_hit = (getattr(self, 'budget_hit', 0) or 0) + 1
+            raise PathAbort()      # time budget used up inside a path: end it; explore() then stops and reports the rest as unexplored
         self.stats['queries'] += 1
         if self.lin is not None:
             extra = [self.lin.abstract(x) for x in extra]
@@ -608,7 +611,7 @@ class Engine:
             if self.stats['paths'] >= max_paths:
                 raise BoundExceeded('max_paths')
             if getattr(self, 'deadline', None) is not None and time.time() > self.deadline:
-                self.budget_hit = len(self.worklist)      # paths left unexplored: the caller reports the reduced coverage
+                self.budget_hit = (getattr(self, 'budget_hit', 0) or 0) + len(self.worklist)      # paths left unexplored: the caller reports the reduced coverage
                 break
             self.trace = list(self.worklist.pop())
             self.reset_path_state()
